@@ -53,12 +53,40 @@ def check(ctx):
     ctx.rule("C17-G", "an unknown at-rule ends where its brackets are balanced: skip_to_end_of_statement returns Ok after a token only "
              "on the true edge of bra_stack.is_empty() — a `;` or `}` inside (...), [...] or {...} does not end the statement")
     ctx.guard("C17-G", rule_g)
+    ctx.rule("C17-H", "white space is what CSS Syntax says it is: the tokenizer's white-space primitive accepts exactly space, tab, "
+             "line feed, carriage return and form feed (the set literal of match_whitespace_item, decoded) — or a comment")
+    ctx.guard("C17-H", rule_h)
 
 
 RAW_SCANNERS = ("take_until", "take_until1", "take_till", "take_till1", "take_while", "take_while1", "take_while_m_n", "is_not", "is_a",
                 "find", "rfind", "split", "splitn", "rsplit", "rsplitn", "split_once", "rsplit_once", "split_terminator", "split_inclusive",
                 "trim_start_matches", "trim_end_matches", "trim_matches", "strip_suffix", "lines", "anychar", "not_line_ending", "rest",
                 "position", "rposition", "memchr", "match_indices", "rmatch_indices", "matches", "contains")
+
+
+def rule_h(ctx):
+    import re
+    F = ctx.facts
+    b = F.one("css::parser::match_whitespace_item")
+    sets = []
+    for bb, t in b.calls(lambda cd, t: (cd or "").startswith("nom::character")):
+        nm = callee_def(t).split("::")[-1]
+        k = op_const(t["args"][0]) if t["args"] else None
+        v = (k or {}).get("v")
+        if nm == "one_of" and isinstance(v, str) and v.startswith('"'):
+            body = v[1:-1]
+            body = re.sub(r"\\u\{([0-9a-fA-F]+)\}", lambda m: chr(int(m.group(1), 16)), body)
+            body = body.replace("\\t", "\t").replace("\\r", "\r").replace("\\n", "\n").replace("\\\\", "\\").replace('\\"', '"')
+            sets.append(set(body))
+        else:
+            sets.append(nm)
+    want = {" ", "\t", "\r", "\n", "\x0c"}
+    ctx.check(sets == [want], "C17-H", "white-space-set={SP,TAB,LF,CR,FF}", b.span, b.id,
+              "the tokenizer's white-space primitive accepts %s; CSS white space is space, tab, LF, CR and FF — a sheet that uses "
+              "another of them where white space is allowed is read differently (rules after it can be lost)"
+              % [sorted(map(repr, x)) if isinstance(x, set) else x for x in sets])
+    ctx.check(bool(b.calls(lambda cd, t: False)) or any("match_comment" in str(o) for x in b.reachable() for st in b.stmts(x) for o in ((st.get("rv") or {}).get("ops") or [])),
+              "C17-H", "white-space-item-includes-comments", b.span, b.id, "")
 
 
 def rule_g(ctx):
